@@ -538,6 +538,11 @@ impl Sys for ChainSys {
             }
         }
         if !check {
+            // recovery is triggered in every state of the path (the standstill timer fires again and
+            // again on one pool instance), it is examined in the state under check
+            if self.probe_standstill {
+                let _ = catch(std::panic::AssertUnwindSafe(|| w.pool.standstill()));
+            }
             return out;
         }
 
